@@ -63,7 +63,7 @@ class C08(BaseCheck):
              'scales.scales_socket:ScalesSocket.open')
   REQUIRED_ANCHORS = ANCHORS
   REQUIRED_CLASSES = ('thrift', 'mux', 'fault:connect', 'fault:send', 'fault:recv', 'kind:error', 'kind:eof',
-                      'kind:refuse', 'kind:silence', 'reconnect-fault', 'probe', 'ping-silence', 'bare-socket', 'error:ETIMEDOUT', 'error:EHOSTUNREACH', 'many-inflight', 'reply-and-close-same-instant', 'timeout-in-write', 'silent-with-inflight', 'requests-while-opening',
+                      'kind:refuse', 'kind:silence', 'reconnect-fault', 'probe', 'ping-silence', 'bare-socket', 'resolver-lists-address-twice', 'error:ETIMEDOUT', 'error:EHOSTUNREACH', 'many-inflight', 'reply-and-close-same-instant', 'timeout-in-write', 'silent-with-inflight', 'requests-while-opening',
                       'expired-on-arrival', 'retry-from-handler', 'request-during-reconnect', 'stalled-peer', 'pings-ignored-under-traffic', 'second-life')
   ASSUMPTIONS = ('a silence fault (peer stops answering without closing) legitimately leaves the transport '
                  'open; only the probe clause applies then',)
@@ -123,6 +123,10 @@ class C08(BaseCheck):
       net.fault_plan[(srv.ep, conn_ord, op, ordinal)] = simnet.Fault(fkind, err_)
       classes.add('fault:' + op)
       classes.add('kind:' + fkind)
+    if (idx + variant) % 5 == 3:
+      # a resolver that lists the peer's address twice
+      net.dns_dup.add('th')
+      classes.add('resolver-lists-address-twice')
     tp = (ThriftTransport if tr == 'thrift' else MuxTransport).Builder()
     if (idx + variant) % 3 == 2:
       # the transport driven over a plain ScalesSocket (no metrics wrapper), as a caller assembling the sinks
